@@ -346,6 +346,8 @@ def run(prog: Program, rep: Report, tier: str):
                 t = fa.sym.term(val, n) if val is not None else None
                 preds = {R.term_at(tn): lab for tn, lab in cfg.control_predicates(n) if cfg.nodes[tn].kind == "test"}
                 dl = preds.get(("self", "drop_last"))
+                if dl is None and ("not", ("self", "drop_last")) in preds:
+                    dl = not preds[("not", ("self", "drop_last"))]
                 if t is None or dl is None:
                     rep.unk("G6.epoch-length", fi, f"def@{'drop_last' if dl else 'no_drop_last'}",
                             "definition of the epoch length not under a drop_last test", line=R.line(n),
@@ -376,10 +378,12 @@ def run(prog: Program, rep: Report, tier: str):
                                     pr2 = {R.term_at(tn): lab for tn, lab in cfg.control_predicates(n2)
                                            if cfg.nodes[tn].kind == "test"}
                                     given = None
+                                    isn = ("is", tuple(sorted((("const", None), ("self", "drop_last_batch_size")), key=repr)))
                                     for k, lab in pr2.items():
-                                        if k == ("not", ("is", tuple(sorted((("const", None), ("self", "drop_last_batch_size")),
-                                                                        key=repr)))):
+                                        if k == ("not", isn):
                                             given = lab
+                                        elif k == isn:
+                                            given = not lab
                                     a = _attr_of(tb) if tb else None
                                     want_attr = "drop_last_batch_size" if given else "batch_size"
                                     if given is None or a != want_attr:
